@@ -53,6 +53,17 @@ class OptCase:
                 for k_ in ("n_sensors", "n_const_sensors"):
                     if isinstance(kw.get(k_), int):
                         kw[k_] = (np.int64 if self.meta["np_ints"] == 64 else np.int32)(kw[k_])
+            rc = self.meta.get("region_container")
+            if rc and isinstance(kw.get("idx_constrained"), np.ndarray) and kw["idx_constrained"].size >= 1:
+                # the region as it comes out of other numpy calls: np.nonzero(mask) is a 1-tuple, a window of the pixel-index grid
+                # is 2-D, a hand-written region is a list.  The rule reads it through np.isin only, i.e. as a set of indices.
+                L = kw["idx_constrained"]
+                if rc == "tuple1":
+                    kw["idx_constrained"] = (L,)
+                elif rc == "2d":
+                    kw["idx_constrained"] = L.reshape(2, -1) if (L.size % 2 == 0 and L.size >= 4 and self.B.shape[0] % 2) else L.reshape(1, -1)
+                elif rc == "list":
+                    kw["idx_constrained"] = [int(x) for x in L]
             if self.omits_all_sensors():
                 kw.pop("all_sensors", None)       # the keyword is optional where the rule can do without the unconstrained ranking
             return GQR(), kw
@@ -104,8 +115,10 @@ class OptCase:
             except Exception:
                 opt, kw = self.make_optimizer()
         Bc = self.B.copy()
-        if self.meta.get("dtype") == "float32":
-            Bc = Bc.astype(np.float32)      # entries are small integers / dyadic: exactly representable in single precision too
+        if self.meta.get("dtype") in ("float32", "float16"):
+            # entries are small integers / dyadic (callers check exact representability): the same matrix, stored narrower.
+            # CCQR / GQR work on a copy of at least single precision (result_type(dtype, float32)).
+            Bc = Bc.astype(self.meta["dtype"])
         if self.kind == "qr":
             opt.fit(Bc)
             r = np.array(opt.get_sensors()).tolist()
